@@ -557,7 +557,24 @@ def s06_generated(ctx):
     return res
 
 
-STREAMS = [s06_insert, s06_snappass, s06_perturbed, s06_generated]
+def s06_crop_order(ctx):
+    """snapping when extraction crops internally (`already_clipped=False`, `Network(truncate_traces=False)`): an end lying exactly on a trace that the area boundary cuts
+    elsewhere must still be connected -- the crop moves such a trace by an ulp, so the snapping pass has to see the CROPPED traces"""
+    import_fractopo()
+    res = StreamResult("S06-crop-order", rule="valid maps (Lean oracle) in box / circle / concave areas that cut traces -- planted abutments exactly on segments that leave the area included -- "
+                       "through the two routes that crop internally (branches_and_nodes(already_clipped=False), Network(truncate_traces=False)), each compared with the exact "
+                       "arrangement; non-trivial = map with a Y node and a boundary cut")
+    rng = rng_for(ctx.seed, "S06co")
+    t = 0.01
+    maps, _ = valid_maps(ctx, rng, budget(ctx.tier, 30, 500), F(t), area_kinds=("box", "circle", "concave"))
+    cut = [m for m in maps if any(c == "E" for _, c in m[3].nodes)] or maps
+    before = res.nontrivial
+    c01.run_maps(ctx, cut, t, res, "S06-crop-order", routes=("direct", "network_notrunc"))
+    res.nontrivial = before + sum(1 for m in cut if any(c == "Y" for _, c in m[3].nodes))
+    return res
+
+
+STREAMS = [s06_insert, s06_snappass, s06_perturbed, s06_crop_order, s06_generated]
 
 
 def replay(ctx, stream, case):
@@ -565,6 +582,8 @@ def replay(ctx, stream, case):
     if stream == "S06-generated":
         r = s06_generated(ctx)
         return r.disagreements[0] if r.disagreements else None
+    if stream == "S06-crop-order":
+        return c01.replay(ctx, stream, case)
     if stream == "S06-insert":
         from shapely.geometry import LineString, Point
 
